@@ -248,3 +248,123 @@ Proof.
   unfold do_batch. assert (Hnb : needs_blank (mki (moms c) (Some pc) (length (moms c)) EARLIEST 0) its = false) by reflexivity.
   rewrite Hnb. cbn [i_ms i_cache i_k i_s i_maxp]. rewrite G1. reflexivity.
 Qed.
+
+(* ==== D4 for append / EARLIEST at the end, any operation tree, cached or not:
+        the items are taken in order; each operation is put somewhere such that nothing behind it
+        conflicts with it (so it follows every conflicting operation that was there or was inserted
+        before it), each Moment goes to the very end ==== *)
+Definition ins_ok (L : list opd) (o : opd) (L1 : list opd) : Prop :=
+  exists a b, L = a ++ b /\ L1 = a ++ o :: b /\ filter (fun x => conflicts x o) b = [].
+Inductive reach : list opd -> list item -> list opd -> Prop :=
+  | reach_nil L : reach L [] L
+  | reach_op L o its L1 L2 : ins_ok L o L1 -> reach L1 its L2 -> reach L (IOp o :: its) L2
+  | reach_mom L m its L2 : reach (L ++ m) its L2 -> reach L (IMom m :: its) L2.
+
+Lemma place_items_cached_reach its : forall st pc,
+  i_cache st = Some pc -> cache_matches pc (i_ms st) ->
+  exists st' pc', place_items st its = (st', None) /\ i_cache st' = Some pc' /\ cache_matches pc' (i_ms st') /\
+                  reach (lin (i_ms st)) its (lin (i_ms st')).
+Proof.
+  induction its as [|it r IH]; intros st pc Hc Hm; cbn [place_items].
+  - exists st, pc. split; [reflexivity|]. split; [exact Hc|]. split; [exact Hm|constructor].
+  - destruct (place_item_cached st it pc Hc Hm) as [st1 [pc1 [H1 [Hc1 Hm1]]]]. rewrite H1.
+    destruct (IH st1 pc1 Hc1 Hm1) as [st2 [pc2 [H2 [Hc2 [Hm2 Hr2]]]]].
+    exists st2, pc2. split; [exact H2|]. split; [exact Hc2|]. split; [exact Hm2|].
+    (* what this one placement did to the linearisation *)
+    unfold place_item, determine in H1. rewrite Hc in H1.
+    destruct (cache_append pc it) as [idx pc'] eqn:Ea.
+    destruct it as [o|m].
+    + destruct (cached_append_lands pc (i_ms st) o idx pc' Hm Ea) as [ms' [Hp Hl]]. rewrite Hp in H1.
+      assert (Hms1 : i_ms st1 = ms') by (destruct (i_s st); injection H1 as <-; reflexivity).
+      destruct (lands_lin (i_ms st) ms' o (length (i_ms st)) (le_n _) Hl) as [l1 [l2 [E1 [E2 [_ E4]]]]].
+      rewrite skipn_all in E4. cbn in E4. apply (reach_op _ o r (lin ms')); [|rewrite <- Hms1; exact Hr2].
+      exists l1, l2. split; [exact E1|]. split; [exact E2|exact E4].
+    + destruct (cache_place_ok pc (i_ms st) (IMom m) idx pc' Hm Ea) as [ms' [Hp _]]. rewrite Hp in H1.
+      assert (Hms1 : i_ms st1 = ms') by (destruct (i_s st); injection H1 as <-; reflexivity).
+      assert (Hidx : idx = length (i_ms st)).
+      { unfold cache_append in Ea. injection Ea as <- _. cbn [gea_index]. destruct Hm as [Hl _]. exact Hl. }
+      subst idx. unfold place in Hp. injection Hp as <-. rewrite insert_at_length in Hms1.
+      apply reach_mom. rewrite Hms1 in Hr2. unfold lin in *. rewrite concat_app in Hr2. simpl in Hr2. rewrite app_nil_r in Hr2. exact Hr2.
+Qed.
+
+(* a cache that agrees with given moments always exists *)
+Definition amap_of (sel : moment -> list Z) (ms : list moment) : amap :=
+  flat_map (fun k => match last_index sel k ms 0 with Some i => [(k, i)] | None => [] end) (flat_map sel ms).
+Definition cache_of (ms : list moment) : pcache :=
+  mkpc (amap_of mqubits ms) (amap_of mmkeys ms) (amap_of mckeys ms) (length ms).
+
+Lemma last_index_none sel k c : forall base, last_index sel k c base = None -> ~ In k (flat_map sel c).
+Proof.
+  induction c as [|m r IH]; intros base H; simpl in *; [tauto|].
+  destruct (last_index sel k r (S base)) eqn:E; [discriminate|].
+  destruct (memz k (sel m)) eqn:Em; [discriminate|]. apply memz_false in Em.
+  intro Hin. apply in_app_or in Hin as [Hin|Hin]; [exact (Em Hin)|exact (IH _ E Hin)].
+Qed.
+
+Lemma lookup_amap_of sel ms k : lookup k (amap_of sel ms) = last_index sel k ms 0.
+Proof.
+  unfold amap_of.
+  assert (G : forall l, lookup k (flat_map (fun k0 => match last_index sel k0 ms 0 with Some i => [(k0, i)] | None => [] end) l)
+                        = if memz k l then last_index sel k ms 0 else None).
+  { induction l as [|x r IH]; [reflexivity|]. simpl. destruct (Z.eqb_spec k x) as [->|Hne].
+    - simpl. destruct (last_index sel x ms 0) as [i|] eqn:E; simpl.
+      + rewrite Z.eqb_refl. reflexivity.
+      + rewrite IH. destruct (memz x r); reflexivity.
+    - simpl. destruct (last_index sel x ms 0) as [i|] eqn:E; simpl.
+      + replace (Z.eqb k x) with false by (symmetry; apply Z.eqb_neq; exact Hne). exact IH.
+      + exact IH. }
+  rewrite G. destruct (memz k (flat_map sel ms)) eqn:Em; [reflexivity|].
+  apply memz_false in Em. destruct (last_index sel k ms 0) as [i|] eqn:E; [|reflexivity].
+  exfalso. destruct (last_index_sound sel k ms 0 i E) as [m [Hn Hmem]]. apply Em. apply in_flat_map. exists m.
+  split; [eapply nth_error_In; exact Hn|apply memz_In; exact Hmem].
+Qed.
+
+Lemma cache_of_matches ms : cache_matches (cache_of ms) ms.
+Proof. unfold cache_matches, cache_of. simpl. repeat split; intros k; apply lookup_amap_of. Qed.
+
+Theorem append_order c its : cache_ok c ->
+  exists c' z, append c its EARLIEST = (c', inl z) /\ reach (lin (moms c)) its (lin (moms c')).
+Proof.
+  intros Hok.
+  (* with a (possibly made up) correct cache the loop is place_items, and the moments do not depend on the cache *)
+  assert (G : forall pc, cache_matches pc (moms c) ->
+              reach (lin (moms c)) its (lin (moms (fst (append (mkc (moms c) (Some pc) (sm c)) its EARLIEST))))).
+  { intros pc Hm. unfold append, insert. cbn [moms cache sm].
+    assert (Hk : clamp_index (Z.of_nat (length (moms c))) (length (moms c)) = length (moms c)).
+    { unfold clamp_index. destruct (0 <=? Z.of_nat (length (moms c))) eqn:E; lia. }
+    rewrite Hk, Nat.eqb_refl. cbn [strategy_eqb negb orb do_batches]. unfold do_batch.
+    assert (Hnb : needs_blank (mki (moms c) (Some pc) (length (moms c)) EARLIEST 0) its = false) by reflexivity.
+    rewrite Hnb. cbn [i_ms i_cache i_k i_s i_maxp].
+    destruct (place_items_cached_reach its (mki (moms c) (Some pc) (length (moms c)) EARLIEST 0) pc eq_refl Hm)
+      as [st' [pc' [H1 [_ [_ Hr]]]]].
+    rewrite H1. exact Hr. }
+  destruct (insert_total c (Z.of_nat (length (moms c))) its EARLIEST Hok) as [c' [z H]].
+  exists c', z. split; [exact H|].
+  destruct (cache c) as [pc|] eqn:Ec.
+  - specialize (G pc (Hok pc Ec)). replace (mkc (moms c) (Some pc) (sm c)) with c in G by (destruct c; simpl in *; congruence).
+    unfold append in G. rewrite H in G. exact G.
+  - specialize (G (cache_of (moms c)) (cache_of_matches _)).
+    rewrite (cached_append_eq_uncached (mkc (moms c) (Some (cache_of (moms c))) (sm c)) its (cache_of (moms c)) eq_refl (cache_of_matches _)) in G.
+    cbn [moms sm] in G. replace (mkc (moms c) None (sm c)) with c in G by (destruct c; simpl in *; congruence).
+    unfold append in G. rewrite H in G. exact G.
+Qed.
+
+Lemma reach_all_moments its : forall ms L, all_moments its = Some ms -> reach L its (L ++ lin ms).
+Proof.
+  induction its as [|it r IH]; intros ms L H; simpl in H.
+  - injection H as <-. unfold lin. simpl. rewrite app_nil_r. constructor.
+  - destruct it as [o|m]; [discriminate|]. fold (all_moments r) in H.
+    destruct (all_moments r) as [l|] eqn:E; [|discriminate]. injection H as <-.
+    apply reach_mom. unfold lin. simpl. rewrite app_assoc. apply (IH l (L ++ m) eq_refl).
+Qed.
+
+(* the same for the constructor Circuit(tree) with the default strategy *)
+Theorem construct_order its : exists c', construct its EARLIEST = (c', inl 0) /\ reach [] its (lin (moms c')).
+Proof.
+  unfold construct. destruct (all_moments its) as [ms|] eqn:Ea.
+  - eexists. split; [reflexivity|]. cbn [moms from_moments]. apply (reach_all_moments its ms [] Ea).
+  - cbn [is_earliest strategy_eqb].
+    destruct (place_items_cached_reach its (mki [] (Some empty_cache) 0 EARLIEST 0) empty_cache eq_refl) as [st' [pc' [H1 [_ [_ Hr]]]]].
+    { repeat split. }
+    rewrite H1. eexists. split; [reflexivity|]. exact Hr.
+Qed.
